@@ -1,7 +1,7 @@
 (* C13 - A backslash makes the next character literal, everywhere.
    Statements only; proofs in Proofs/PegEscape.v (on the grammar regenerated from akn.peg). *)
 Require Import BB.Base.Str BB.Base.Dict BB.Model.PegSyntax BB.Model.Peg BB.Model.Types BB.Gen.Grammar.
-Require Import BB.Proofs.Totality BB.Proofs.PegEscape BB.Proofs.EscapedLine.
+Require Import BB.Proofs.Totality BB.Proofs.PegEscape BB.Proofs.EscapedLine BB.Proofs.EscapedHeading.
 
 (* grammar level, for every non-empty string of scalar values without a newline, every position
    and any sufficient fuel: inline+ on the character-by-character escaped string consumes exactly
@@ -34,6 +34,24 @@ Theorem C13_escaped_line_is_paragraph : forall s pre rest f f',
     /\ to_dict inp (2 + f') tree = OkR (DNode (Types.S_ "content") (Types.S_ "p") None None None None None None (Some [DText s])).
 Proof. exact escaped_line_is_paragraph. Qed.
 Print Assumptions C13_escaped_line_is_paragraph.
+
+(* in headings: after the " - " that separates num and heading, the escaped string up to the line end is read by rule
+   hier_element_heading_heading (the heading of every hierarchical element, speech container, speech group and list
+   item) as one (backslash, character) node per character ... *)
+Theorem C13_escaped_heading_parses : forall f s rest off,
+  Forall okc s -> s <> [] ->
+  run akn_peg (18 + f) (Ref (of_string "hier_element_heading_heading")) (32 :: 45 :: 32 :: esc s ++ NL :: rest) off
+  = Ok (NL :: rest) (off + 3 + 2 * len_N s) (heading_node off s).
+Proof. exact escaped_heading_parses. Qed.
+Print Assumptions C13_escaped_heading_parses.
+
+(* ... and the heading's dict is the single text node holding the string: for every heading tree whose heading part is
+   that node *)
+Theorem C13_escaped_heading_literal : forall td s pre post h,
+  s <> [] -> label h (Types.S_ "heading") = OkR (heading_node (len_N pre) s) ->
+  hier_heading_to_dict (pre ++ 32 :: 45 :: 32 :: esc s ++ post) td h = OkR (Some [DText s]).
+Proof. exact escaped_heading_literal. Qed.
+Print Assumptions C13_escaped_heading_literal.
 
 (* non-vacuity: a string made of markers and keywords *)
 Example C13_example :
